@@ -16,6 +16,11 @@ CLAIMS = {
             "grains (un)packing), XDEP (no dependence on the request list as a whole), FWD (single-property members), 2D "
             "wrapper bookkeeping: structural facts that entail history/batching independence and the announced layout",
             "§3.1-3.3, §3.9, §4 C01"),
+    "C10": ("twin-block and sibling cross-check + interpolation-shape analysis + table provenance",
+            "kind twin blocks of the segment parser and section defaults (identical after kind substitution, same origin, order kept), "
+            "slab/fault siblings, every section interpolation is cur + f*(next-cur) of the neighbouring section (features and kernel), "
+            "per-section model loops, provenance/sizing of per-section tables, guarded section override",
+            "§3.5, §3.6, §4 C10"),
     "C12": ("validation-discipline analysis (size facts vs. element accesses, dominance of input gates)",
             "A2: every element access to an input-derived member vector on the query path is covered by a release-active size "
             "fact (schema minItems / WBAssertThrow / resize); A1: relied-upon length checks are not debug-only; A3/A4: no "
@@ -64,11 +69,22 @@ CLAIMS.update({
             "background blocks (adiabat Tp*exp(alpha*g*depth/cp), 0, zeros, -1, (0,0,0)), constants assigned only from the entry of their own "
             "name, G1, forced surface temperature emitted under exactly its condition, never handed to features, independent of batching",
             "§3.6, §3.3, §3.4, §4 C03"),
+    "C04": ("control-dependence + algebraic normal forms (plume bracket, shorter-arc angle, ellipse) + alias-wrapper shape",
+            "closed depth intervals and polygon-test arguments in the extent tests, shape and exclusive use of the longitude-alias "
+            "wrappers, plume cross-section interpolation (own table, one fraction, front/back outside), three-case shorter-arc angle "
+            "interpolation, ellipse equation, depth-surface pairing. The winding-number test itself is not decided",
+            "§3.4, §3.6, §4 C04"),
     "C05": ("sibling cross-check in normal form + model-level dataflow rules + computer-algebra comparison of simple closed forms",
             "SIB over all replicated model classes with a frozen table of explained differences, R1, G4/G2 (inclusive two-sided range "
             "guard), N1 (sentinel overrides: tested variable = replaced variable, world's constant / adiabat, no dead override), closed "
             "forms of uniform/adiabatic/linear. Chapman, mass-conserving, tian2019 recipes are not decided",
             "§3.5, §3.6, §4 C05"),
+    "C06": ("normalised membership relations + call-site agreement + sibling cross-check",
+            "slab/fault membership predicates over (distance from plane, distance along plane), inclusive depth gate, agreement of the "
+            "two call sites of the curved-planes kernel and of the starting radius, unswapped hand-over up to World::distance_to_plane, "
+            "per-section tables read only through cur+f*(next-cur) inside the kernel, slab/fault sibling table. The line/arc "
+            "construction itself is not decided",
+            "§3.5, §3.6, §3.9, §4 C06"),
     "C07": ("dependence-set analysis of culling bounds + structural coverage rules",
             "DEP: every depth cut-off / bounding box depends on all parameters the exact extent depends on (min depth, segment lengths "
             "and thicknesses, coordinates, radius), spherical buffer factor > 1, max-accumulators cover all sections x segments x both "
